@@ -467,6 +467,10 @@ func runC06(c *core.Ctx) {
 // optional AuthnRequest content (schema order: after Issuer) that names identities or formats
 var c06ReqExtras = []struct{ name, xml string }{
 	{"none", ""},
+	// conditions the requester would like to see in the assertion: the scoping of the answer is the IdP's business
+	{"conditions-audience-another-sp", `<saml:Conditions><saml:AudienceRestriction><saml:Audience>https://other-sp.example.org/metadata</saml:Audience></saml:AudienceRestriction></saml:Conditions>`},
+	{"conditions-far-future-window", `<saml:Conditions NotBefore="2000-01-01T00:00:00Z" NotOnOrAfter="2999-01-01T00:00:00Z"><saml:OneTimeUse/></saml:Conditions>`},
+	{"scoping+requesterid", `<samlp:Scoping ProxyCount="5"><samlp:RequesterID>https://other-sp.example.org/metadata</samlp:RequesterID></samlp:Scoping>`},
 	{"nameidpolicy-emailAddress", `<samlp:NameIDPolicy Format="urn:oasis:names:tc:SAML:1.1:nameid-format:emailAddress" AllowCreate="true"/>`},
 	{"nameidpolicy-persistent-spnamequalifier", `<samlp:NameIDPolicy Format="urn:oasis:names:tc:SAML:2.0:nameid-format:persistent" SPNameQualifier="https://other-sp.example.net/"/>`},
 	{"subject-names-another-principal", `<saml:Subject><saml:NameID Format="urn:oasis:names:tc:SAML:1.1:nameid-format:emailAddress">admin@example.com</saml:NameID></saml:Subject><samlp:NameIDPolicy AllowCreate="true"/>`},
